@@ -61,3 +61,7 @@ pub(super) fn write_ht(
 
     Ok(())
 }
+
+#[cfg(kani)]
+#[path = "/verif/units/kani/bitbox_writeout.rs"]
+mod verif_kani;
